@@ -140,7 +140,10 @@ def create_warning(
     else:
         # docutils
         if _is_suppressed_warning(
-            type_str, subtype_str, document.settings.myst_suppress_warnings or []
+            type_str,
+            subtype_str,
+            # (the settings of a document of another parser have no myst options)
+            getattr(document.settings, "myst_suppress_warnings", None) or [],
         ):
             return None
         kwargs = {}
